@@ -301,10 +301,17 @@ func runMsgTree(r *hx.R, n int, w *hx.W, _ []string) error {
 	decorate = func(list []mnode, signer int) []mnode {
 		var out []mnode
 		harmless := func(who int) mnode {
-			if r.Chance(1, 2) {
-				return mnode{kind: "send", who: who}
+			send := mnode{kind: "send", who: who}
+			switch r.Pick(5) {
+			case 0, 1:
+				return send
+			case 2:
+				return mnode{kind: "exec", who: who, inner: []mnode{send}}
+			case 3: // a wrapper that expands to MORE messages than it occupies (a scan that flattens in place would overwrite what follows)
+				return mnode{kind: "exec", who: who, inner: []mnode{send, send}}
+			default:
+				return mnode{kind: "exec", who: who, inner: []mnode{{kind: "exec", who: who, inner: []mnode{send, send, send}}}}
 			}
-			return mnode{kind: "exec", who: who, inner: []mnode{{kind: "send", who: who}}}
 		}
 		for _, m := range list {
 			who := signer
